@@ -328,3 +328,145 @@ func VC08Prog(k int) {
 		vAssert("again-mem", bus1.Peek(probe) == ref.Peek(probe))
 	}
 }
+
+// ---- any first instruction --------------------------------------------------
+
+// vIdxMem answers the i-th read with the i-th byte of a stream, whatever the
+// address: the leading bytes are the concrete encoding under test, the rest of
+// the first Step's reads are arbitrary, and every read after the first Step
+// (n1 reads) returns HALT, so that Run comes to an end by itself.
+type vIdxMem struct {
+	gets int
+	n1   int // number of reads of the first Step; < 0 while it is being measured
+	pre  [4]int
+	tail int // reads served after the first Step
+	nw   int
+	wa   [8]uint16
+	wv   [8]uint8
+}
+
+func (m *vIdxMem) Get(addr uint16) uint8 {
+	i := m.gets
+	m.gets++
+	if m.n1 >= 0 && i >= m.n1 {
+		m.tail++
+		if m.tail > 6 {
+			vStop("tail bound")
+		}
+		return 0x76
+	}
+	if i < 4 && m.pre[i] >= 0 {
+		return uint8(m.pre[i])
+	}
+	return vU8N("b", i)
+}
+
+func (m *vIdxMem) Set(addr uint16, v uint8) {
+	if m.nw < 8 {
+		m.wa[m.nw], m.wv[m.nw] = addr, v
+	}
+	m.nw++
+}
+
+type vIdxIO struct {
+	ins, outs int
+	oa, ov    [4]uint8
+}
+
+func (d *vIdxIO) In(addr uint8) uint8 {
+	d.ins++
+	return vU8N("in", d.ins)
+}
+func (d *vIdxIO) Out(addr uint8, v uint8) {
+	if d.outs < 4 {
+		d.oa[d.outs], d.ov[d.outs] = addr, v
+	}
+	d.outs++
+}
+
+func vEncBytes(tbl, op int) [4]int {
+	switch tbl {
+	case 0:
+		return [4]int{op, -1, -1, -1}
+	case 1:
+		return [4]int{0xcb, op, -1, -1}
+	case 2:
+		return [4]int{0xed, op, -1, -1}
+	case 3:
+		return [4]int{0xdd, op, -1, -1}
+	case 4:
+		return [4]int{0xfd, op, -1, -1}
+	case 5:
+		return [4]int{0xdd, 0xcb, -1, op}
+	}
+	return [4]int{0xfd, 0xcb, -1, op}
+}
+
+// Run started on *any* encoding X (then HALTs): the first loop iteration of
+// Run equals one Step of X plus the stop rule, for every X, start state, stale
+// halted flag, breakpoint set and pending request.
+// intr: 0 none, 1 NMI pending at entry, 2 maskable (mode 1 request; IM, IFF1 arbitrary)
+func VC08Any(tbl, op, intr int) {
+	var s States
+	vHavoc(&s, "s")
+	stale := vBool("stalehalt")
+	pre := vEncBytes(tbl, op)
+	d1 := &vIdxMem{n1: -1, pre: pre}
+	d2 := &vIdxMem{n1: -1, pre: pre}
+	io1, io2 := &vIdxIO{}, &vIdxIO{}
+	c1 := &CPU{States: s, Memory: d1, IO: io1, HALT: stale}
+	c2 := &CPU{States: s, Memory: d2, IO: io2, HALT: stale}
+	switch intr {
+	case 1:
+		c1.Interrupt, c2.Interrupt = NMIInterrupt(), NMIInterrupt()
+	case 2:
+		c1.Interrupt, c2.Interrupt = IM1Interrupt(), IM1Interrupt()
+	}
+	bps := vMapU16Set("bp", 2)
+	if vCase(vBool("bp-nil")) {
+		bps = nil
+	}
+	c1.BreakPoints, c2.BreakPoints = bps, bps
+	// the twin: Step with the stop rule written out; its first Step measures n1
+	c2.HALT = false
+	c2.Step()
+	n1 := d2.gets
+	d1.n1, d2.n1 = n1, n1
+	wk, steps := -1, 1
+	for {
+		if c2.BreakPoints != nil {
+			if _, ok := c2.BreakPoints[c2.PC]; vCase(ok) {
+				wk = 1
+				break
+			}
+		}
+		if vCase(c2.HALT) {
+			wk = 0
+			break
+		}
+		if steps >= 5 {
+			vStop("twin bound")
+		}
+		c2.Step()
+		steps++
+	}
+	err := c1.Run(context.Background())
+	vAssert("result", vErrKind(err) == wk)
+	vAssert("reads", d1.gets == d2.gets)
+	vAssert("state", c1.States == c2.States)
+	vAssert("HALT", c1.HALT == c2.HALT)
+	vAssert("pending", (c1.Interrupt == nil) == (c2.Interrupt == nil))
+	vAssert("writes", d1.nw == d2.nw)
+	if d1.nw == d2.nw {
+		for i := 0; i < d1.nw && i < 8; i++ {
+			vAssert("write-log", vAnd(d1.wa[i] == d2.wa[i], d1.wv[i] == d2.wv[i]))
+		}
+	}
+	vAssert("ports", vAnd(io1.ins == io2.ins, io1.outs == io2.outs))
+	if io1.outs == io2.outs {
+		for i := 0; i < io1.outs && i < 4; i++ {
+			vAssert("port-log", vAnd(io1.oa[i] == io2.oa[i], io1.ov[i] == io2.ov[i]))
+		}
+	}
+	vAssert("cancel-released", vCancelReleased())
+}
